@@ -238,8 +238,19 @@ impl GroupCommitQueue {
         &self,
         payload: CommitPayload,
     ) -> Result<u64, String> {
+        self.submit_and_wait_leader(payload).map(|(batch_id, _)| batch_id)
+    }
+
+    /// Like `submit_and_wait`, and also tells the caller whether it was elected
+    /// to perform the flush. Only an elected leader may call `take_pending`: a
+    /// caller whose commit was completed by someone else must not drain the
+    /// queue, or it steals the entries of the leader elected after it.
+    pub fn submit_and_wait_leader(
+        &self,
+        payload: CommitPayload,
+    ) -> Result<(u64, bool), String> {
         if !self.is_enabled() || payload.is_empty() {
-            return Ok(0);
+            return Ok((0, false));
         }
 
         let pending = {
@@ -262,9 +273,9 @@ impl GroupCommitQueue {
             pending
         };
 
-        self.wait_for_completion(&pending)?;
+        let is_leader = self.wait_for_completion(&pending)?;
 
-        Ok(pending.batch_id)
+        Ok((pending.batch_id, is_leader))
     }
 
     /// Submit a commit request without waiting (for async usage)
@@ -290,7 +301,9 @@ impl GroupCommitQueue {
         pending
     }
 
-    fn wait_for_completion(&self, pending: &PendingCommit) -> Result<(), String> {
+    /// Returns `Ok(true)` if the caller was elected leader (its commit is NOT
+    /// completed yet and it must flush), `Ok(false)` if its commit was completed.
+    fn wait_for_completion(&self, pending: &PendingCommit) -> Result<bool, String> {
         // Use a generous timeout for the actual flush operation, as disk I/O can be slow
         // especially under load or with large batches. 10ms (old) was deemed too short.
         let timeout = Duration::from_secs(30);
@@ -310,7 +323,7 @@ impl GroupCommitQueue {
             if should_flush {
                 state.flush_in_progress = true;
                 drop(state);
-                return Ok(());
+                return Ok(true);
             } else {
                 let remaining = timeout.saturating_sub(start.elapsed());
                 if remaining.is_zero() {
@@ -323,7 +336,7 @@ impl GroupCommitQueue {
         if let Some(error) = pending.take_error() {
             Err(error)
         } else {
-            Ok(())
+            Ok(false)
         }
     }
 
